@@ -14,8 +14,22 @@ type Instance struct {
 	Key     string
 	Signer  *Signer
 	Backend *Backend
-	Keys    []WalletKey
+	Keys    []WalletKey // the accounts that can sign
+	Decoys  []Decoy     // listed by eth_accounts as well, but never able to sign (mis-filed / unreadable key files)
 	lastUse int64
+}
+
+// Listed returns every address eth_accounts has to report (40 lower-case hex digits each).
+func (in *Instance) Listed() []string {
+	out := make([]string, 0, len(in.Keys)+len(in.Decoys))
+	for _, k := range in.Keys {
+		out = append(out, k.AddrHex)
+	}
+	for _, d := range in.Decoys {
+		out = append(out, d.AddrHex)
+	}
+	sort.Strings(out)
+	return out
 }
 
 // Pool keeps long-lived instances, one per configuration key, below a base
@@ -25,6 +39,7 @@ type Pool struct {
 	base  string
 	inst  map[string]*Instance
 	n     int
+	fresh int
 	tick  int64
 	Max   int // live processes kept at most (least recently used is stopped); default 12
 	Stats struct{ Started, Crashed int }
@@ -68,16 +83,28 @@ func (p *Pool) Get(key string, chainID *int64, netVersion json.RawMessage) (*Ins
 		return nil, err
 	}
 	keys := Keys(3)
-	sg, err := StartSigner(SignerOptions{Dir: dir, BackendURL: be.URL, ChainID: chainID, Keys: keys})
+	decoys := Decoys(keys)
+	sg, err := StartSigner(SignerOptions{Dir: dir, BackendURL: be.URL, ChainID: chainID, Keys: keys, Decoys: decoys})
 	if err != nil {
 		be.Close()
 		_ = os.RemoveAll(dir)
 		return nil, err
 	}
 	p.Stats.Started++
-	in := &Instance{Key: key, Signer: sg, Backend: be, Keys: keys, lastUse: p.tick}
+	in := &Instance{Key: key, Signer: sg, Backend: be, Keys: keys, Decoys: decoys, lastUse: p.tick}
 	p.inst[key] = in
 	return in, nil
+}
+
+// Fresh starts a process (and backend) that no earlier exchange has touched, for cases
+// that are whole histories: replaying such a case starts from the same state.  The caller
+// Drops the instance when the history is over.
+func (p *Pool) Fresh(chainID *int64, netVersion json.RawMessage) (*Instance, error) {
+	p.mu.Lock()
+	p.fresh++
+	key := fmt.Sprintf("fresh-%d", p.fresh)
+	p.mu.Unlock()
+	return p.Get(key, chainID, netVersion)
 }
 
 func (p *Pool) dropLocked(in *Instance) {
